@@ -170,6 +170,20 @@ fn replay_one<P: Pad>(events: Vec<Value>) -> ReplayOutcome {
             _ => break,
         }
     }
+    if rec::has_drift() {
+        // The code left the model's prediction. Keep going with the rest of the scripted program
+        // (callbacks now return at once, operations that no longer apply are skipped) and finish
+        // with collections until quiet, so that the contract monitor can judge the outcome.
+        let rest: Vec<Value> = rec::remaining_top_level_calls();
+        for e in rest {
+            if world::valid::<P>(&e) {
+                world::exec::<P>(&e);
+            }
+        }
+        for _ in 0..3 {
+            world::exec::<P>(&json!({"e": "call", "op": "collect"}));
+        }
+    }
     director::set(director::Dir::Idle);
     world::uninstall();
     let consumed = rec::cursor();
